@@ -10,6 +10,7 @@ import (
 	"fmt"
 	"reflect"
 	"strings"
+	"sync"
 
 	"verif/harness/common"
 
@@ -89,20 +90,20 @@ type event struct {
 
 func model(p prog) *mnode {
 	root := &mnode{kind: "morphism"}
-	root.kids = append(root.kids, &mnode{kind: "from", ta: typeOf[p.A], tok: tokOf(0)})
+	root.kids = append(root.kids, &mnode{kind: "from", ta: names[p.A], tok: tokOf(0)})
 	open := []*mnode{root}
 	b := p.A
 	for i, s := range p.Steps {
 		top := open[len(open)-1]
 		switch s.Op {
 		case "join":
-			top.kids = append(top.kids, &mnode{kind: "map", ta: typeOf[b], tb: typeOf[s.C], tok: tokOf(i + 1)})
+			top.kids = append(top.kids, &mnode{kind: "map", ta: names[b], tb: names[s.C], tok: tokOf(i + 1)})
 		case "yield":
-			top.kids = append(top.kids, &mnode{kind: "yield", ta: typeOf[b], tok: tokOf(i + 1)})
+			top.kids = append(top.kids, &mnode{kind: "yield", ta: names[b], tok: tokOf(i + 1)})
 		case "lift":
 			e, _ := elemOf(b)
 			in := &mnode{kind: "seq"}
-			in.kids = append(in.kids, &mnode{kind: "map", ta: typeOf[e], tb: typeOf[s.C], tok: tokOf(i + 1)})
+			in.kids = append(in.kids, &mnode{kind: "map", ta: names[e], tb: names[s.C], tok: tokOf(i + 1)})
 			top.kids = append(top.kids, in)
 			open = append(open, in)
 		case "wrap":
@@ -153,6 +154,13 @@ var boom = errors.New("visitor failed here")
 type recorder struct {
 	ev     []event
 	failAt int
+	seqs   []seqSeen // sequence nodes handed to the enter callbacks, with the position of that callback
+}
+
+type seqSeen struct {
+	node  duct.AstSeq
+	depth int
+	at    int
 }
 
 func (r *recorder) hit(cb string, depth int, f string) error {
@@ -167,12 +175,16 @@ func (r *recorder) hit(cb string, depth int, f string) error {
 }
 func seqF(n duct.AstSeq) string { return fmt.Sprintf("root=%v kids=%d", n.Root, len(n.Seq)) }
 func (r *recorder) OnEnterMorphism(d int, n duct.AstSeq) error {
+	r.seqs = append(r.seqs, seqSeen{n, d, len(r.ev)})
 	return r.hit("EnterMorphism", d, seqF(n))
 }
 func (r *recorder) OnLeaveMorphism(d int, n duct.AstSeq) error {
 	return r.hit("LeaveMorphism", d, seqF(n))
 }
-func (r *recorder) OnEnterSeq(d int, n duct.AstSeq) error { return r.hit("EnterSeq", d, seqF(n)) }
+func (r *recorder) OnEnterSeq(d int, n duct.AstSeq) error {
+	r.seqs = append(r.seqs, seqSeen{n, d, len(r.ev)})
+	return r.hit("EnterSeq", d, seqF(n))
+}
 func (r *recorder) OnLeaveSeq(d int, n duct.AstSeq) error { return r.hit("LeaveSeq", d, seqF(n)) }
 func (r *recorder) OnEnterMap(d int, n duct.AstMap) error {
 	return r.hit("EnterMap", d, fmt.Sprintf("a=%s b=%s f=%v", n.TypeA, n.TypeB, n.F))
@@ -191,6 +203,81 @@ func (r *recorder) OnEnterYield(d int, n duct.AstYield) error {
 }
 func (r *recorder) OnLeaveYield(d int, n duct.AstYield) error {
 	return r.hit("LeaveYield", d, fmt.Sprintf("type=%s target=%v", n.Type, n.Target))
+}
+
+// names: the type names the model expects. duct.TypeOf of the universe (the property's wording) once it has been
+// computed; the independently written wantName table during the cold start (the companion check below compares the two)
+var names = wantName
+
+// coldStart: the first thing a child process does with duct is to build and visit pipelines from several goroutines
+// at once, over types the library has not seen yet in this process. Pipelines are independent values; the traces
+// must be those of the model. (A crash of the run time - concurrent map access - is attributed to this case.)
+func coldStart() {
+	c := caseT{Prog: prog{A: "cold-start"}, Fail: -1}
+	rec.Begin("cold-start", c)
+	defer rec.End("cold-start")
+	var ps []prog
+	for _, a := range sources {
+		for _, t := range universe {
+			p := prog{A: a, Steps: []step{{Op: "join", C: t}}}
+			if e, ok := elemOf(t); ok && inU(e) {
+				p.Steps = append(p.Steps, step{Op: "lift", C: universe[(len(ps)*7)%len(universe)]}, step{Op: "unit"})
+			}
+			p.Steps = append(p.Steps, step{Op: "yield"})
+			// keep the well-typed prefix
+			b := p.A
+			for i, s := range p.Steps {
+				nb := typeStep(b, s)
+				if nb == "" {
+					p.Steps = p.Steps[:i]
+					break
+				}
+				b = nb
+			}
+			ps = append(ps, p)
+		}
+	}
+	const workers = 8
+	msgs := make([]string, workers)
+	var wg sync.WaitGroup
+	start := make(chan struct{})
+	for w := 0; w < workers; w++ {
+		wg.Add(1)
+		go func(w int) {
+			defer wg.Done()
+			<-start
+			for i := range ps {
+				p := ps[(i*5+w*len(ps)/workers)%len(ps)] // every goroutine starts at another type
+				var ev []event
+				var err error
+				if pn := common.Catch(func() {
+					m, b := build(p)
+					r := &recorder{failAt: -1}
+					err = applyTab[p.A+"|"+b](m, r)
+					ev = r.ev
+				}); pn != nil {
+					msgs[w] = fmt.Sprintf("%v: panic %v", p, pn)
+					return
+				}
+				var want []event
+				model(p).trace(0, &want)
+				if err != nil || !reflect.DeepEqual(ev, want) {
+					msgs[w] = fmt.Sprintf("%v: trace %v err %v, the declared steps give %v", p, ev, err, want)
+					return
+				}
+			}
+		}(w)
+	}
+	close(start)
+	wg.Wait()
+	for w, m := range msgs {
+		if m != "" {
+			rec.Violate("C16/cold-start/trace", fmt.Sprintf("pipelines built concurrently by %d goroutines in a fresh process; goroutine %d: %s", workers, w, m), c)
+			break
+		}
+	}
+	rec.Eval("cold-start", true)
+	rec.Count("cold_start_programs", int64(workers*len(ps)))
 }
 
 // ---------------------------------------------------------------- running the real thing
@@ -283,12 +370,14 @@ func runProg(p prog, fails []int, allFails bool) {
 	} else {
 		site += "from/"
 	}
+	var seen []seqSeen
 	visit := func(failAt int) (ev []event, err error, pn any) {
 		pn = common.Catch(func() {
 			m, b := build(p)
 			r := &recorder{failAt: failAt}
 			err = applyTab[p.A+"|"+b](m, r)
 			ev = r.ev
+			seen = r.seqs
 		})
 		return
 	}
@@ -322,6 +411,30 @@ func runProg(p prog, fails []int, allFails bool) {
 		}
 		rec.Violate(site+"trace", fmt.Sprintf("callback %d is %v, the declared steps give %v (got %d callbacks, want %d)", i, g, w, len(ev), len(want)), c)
 		return
+	}
+	// a node handed to a callback is itself visitable (Ast.Apply): visiting it again at its depth reports exactly the
+	// part of the trace between its enter and its leave callback - for the root, the one root morphism again
+	for _, sn := range seen {
+		end := sn.at + 1
+		for lv := 1; end < len(ev) && lv > 0; end++ {
+			switch {
+			case strings.HasPrefix(ev[end].Cb, "Enter"):
+				lv++
+			case strings.HasPrefix(ev[end].Cb, "Leave"):
+				lv--
+			}
+		}
+		r := &recorder{failAt: -1}
+		var err error
+		if pn := common.Catch(func() { err = sn.node.Apply(sn.depth, r) }); pn != nil || err != nil {
+			rec.Violate(site+"revisit/error", fmt.Sprintf("visiting the node of callback %d again: panic %v, error %v", sn.at, pn, err), c)
+			return
+		}
+		if !reflect.DeepEqual(r.ev, ev[sn.at:end]) {
+			rec.Violate(site+"revisit/trace", fmt.Sprintf("visiting the node handed to callback %d (%v) again at depth %d reports %v, the first visit reported %v for it", sn.at, ev[sn.at], sn.depth, r.ev, ev[sn.at:end]), c)
+			return
+		}
+		rec.Count("nodes_revisited", 1)
 	}
 	depth := 0
 	for _, e := range ev {
@@ -371,6 +484,12 @@ func main() {
 	defer rec.Finish()
 	// companion oracle: duct.TypeOf itself follows the documented naming scheme on the universe, so distinct
 	// types get distinct names (the AST records duct.TypeOf of the step's type parameters, as C16 states)
+	coldStart()
+	typeOf := map[string]string{}
+	for k, f := range typeOfFn {
+		typeOf[k] = f()
+	}
+	names = typeOf
 	for k, v := range typeOf {
 		rec.Eval("typeof "+k, true)
 		if v != wantName[k] {
